@@ -159,7 +159,7 @@ def classify(rec, cobs, info, cfg):
     nxt = full_real[k] if k < len(full_real) else None
     crashed = isinstance(cout, str) and (cout.startswith("CRASH") or cout == "TIMEOUT")
     resp = None
-    if crashed:
+    if crashed and k == len(clog):       # died before producing anything the spec does not expect
         obs = "crash"
         resp = fails[0] if fails else nxt
         # the compiler's "cannot be unbound here" claims that the spec refutes on this path, in the gap where the child died
